@@ -3,6 +3,9 @@
 from __future__ import annotations
 
 import random
+import re
+from decimal import Decimal
+from fractions import Fraction
 from typing import Any, Sequence
 
 from vp.core import enc, encb
@@ -25,14 +28,39 @@ def enc_list(xs: Sequence[str]) -> str:
     return ";".join(enc(x) for x in xs)
 
 
+_NUM_TEXT = re.compile(r"[+-]?(\d*)(?:\.(\d*))?(?:[eE]([+-]?\d+))?")
+
+
+def typed(text: str, x) -> str:
+    """A typed result of parsing (`node.threshold`, `tag_value_numeric`: Python floats) as an exact fraction
+    `p/q`, `N` for None.  When the text it was read from has more than 15 digits or a decimal exponent beyond
+    +-200 the float is not compared (`~`); otherwise decimal -> double -> shortest repr is the identity, so the
+    fraction of repr(x) is the number written in the text (what the model computes)."""
+    if x is None:
+        return "N"
+    m = _NUM_TEXT.fullmatch(text or "")
+    if m is None:
+        return "~"
+    exp = int(m.group(3) or 0) - len(m.group(2) or "")
+    if sum(ch.isdecimal() for ch in text) > 15 or abs(exp) > 200:
+        return "~"
+    f = Fraction(Decimal(repr(float(x))))
+    return f"{f.numerator}/{f.denominator}"
+
+
 def new_parser(method, uod: Sequence[str]):
     from openpectus.lang.model.parser import create_method_parser
     return create_method_parser(method, list(uod))
 
 
-def parse_text(text: str, uod: Sequence[str] = UOD):
-    from openpectus.lang.model.parser import ParserMethod
-    m = ParserMethod.from_pcode(text)
+def parse_text(text: str, uod: Sequence[str] = UOD, custom_ids: bool = False):
+    """custom_ids: the production path — a ParserMethod whose lines and ids come from the caller (frontend),
+    here the lines of the text under ids that are not `id_<n>`."""
+    from openpectus.lang.model.parser import ParserMethod, ParserMethodLine
+    if custom_ids:
+        m = ParserMethod([ParserMethodLine(f"L{7 * i + 3}-x", ln) for i, ln in enumerate(text.splitlines())])
+    else:
+        m = ParserMethod.from_pcode(text)
     return m, new_parser(m, uod).parse_method(m)
 
 
@@ -62,12 +90,12 @@ def line_no_of(method, node_id: str) -> int | None:
     return ids.index(node_id) if node_id in ids else None
 
 
-def observe_rows(text: str, uod: Sequence[str] = UOD) -> str:
+def observe_rows(text: str, uod: Sequence[str] = UOD, custom_ids: bool = False) -> str:
     """`idx:parent:err:char:kind;…` in tree pre-order; idx/parent = index of the method line whose id the node
-    carries (`r` = ProgramNode)."""
+    carries (`r` = ProgramNode). Column and flag of blank/comment nodes carry no meaning and are masked."""
     import openpectus.lang.model.ast as p
     try:
-        method, prog = parse_text(text, uod)
+        method, prog = parse_text(text, uod, custom_ids)
     except Exception as e:  # the property says parsing never fails
         return f"err:{type(e).__name__}"
     ids = {ln.id: i for i, ln in enumerate(method.lines)}
@@ -76,8 +104,11 @@ def observe_rows(text: str, uod: Sequence[str] = UOD) -> str:
         par = "r" if isinstance(parent, p.ProgramNode) else str(ids.get(parent.id, "?"))
         if node.parent is not parent:
             par += "!"  # parent pointer and children list disagree
-        rows.append(f"{ids.get(node.id, '?')}:{par}:{encb(bool(node.indent_error))}:{node.position.character}:"
-                    f"{kind_of(node)}")
+        if kind_of(node) == "w":
+            rows.append(f"{ids.get(node.id, '?')}:{par}:-:-:w")
+        else:
+            rows.append(f"{ids.get(node.id, '?')}:{par}:{encb(bool(node.indent_error))}:{node.position.character}:"
+                        f"{kind_of(node)}")
     return ";".join(rows) if rows else "-"
 
 
@@ -95,14 +126,19 @@ def observe_nodes(text: str, uod: Sequence[str] = UOD) -> str:
 
 def observe_cond(c) -> str:
     return "\t".join([enc(c.op), enc(c.lhs), enc(c.rhs), _enc_opt(c.tag_name), _enc_opt(c.tag_value),
-                      _enc_opt(c.tag_unit), encb(bool(c.error))])
+                      _enc_opt(c.tag_unit), encb(bool(c.error)), typed(c.tag_value or "", c.tag_value_numeric)])
 
 
-def observe_node(node) -> str:
+def observe_node(node, raw: bool = True) -> str:
+    """raw=True: every field incl. the raw regex groups; raw=False: the parts the property speaks about."""
     import openpectus.lang.model.ast as p
     f = [type(node).__name__, str(node.position.character), encb(bool(node.indent_error)), enc(node.threshold_part),
-         enc(node.instruction_part), enc(node.instruction_part.strip()), enc(node.arguments_part), enc(node.arguments),
-         encb(bool(node.has_argument)), encb(bool(node.has_comment)), enc(node.comment_part)]
+         typed(node.threshold_part, node.threshold)]
+    if raw:
+        f += [enc(node.instruction_part), enc(node.instruction_part.strip()), enc(node.arguments_part)]
+    else:
+        f += [enc(node.instruction_part.strip())]
+    f += [enc(node.arguments), encb(bool(node.has_argument)), encb(bool(node.has_comment)), enc(node.comment_part)]
     if isinstance(node, p.NodeWithTagOperatorValue):
         f.append(observe_cond(node.tag_operator_value))
     return "\t".join(f)
@@ -114,9 +150,9 @@ def parse_one_line(line: str, uod: Sequence[str] = UOD):
     return new_parser(m, uod)._parse_line(line, 0)
 
 
-def observe_line(line: str, uod: Sequence[str] = UOD) -> str:
+def observe_line(line: str, uod: Sequence[str] = UOD, raw: bool = True) -> str:
     try:
-        return observe_node(parse_one_line(line, uod))
+        return observe_node(parse_one_line(line, uod), raw)
     except Exception as e:
         return f"err:{type(e).__name__}"
 
@@ -195,6 +231,10 @@ def rand_instruction(rng: random.Random, opener: bool | None = None) -> tuple[st
     else:
         body = name
     return f"{thr}{body}{cmt}", "l"
+
+
+# instruction lines that do not match the line pattern (first character not in [a-zA-Z_0-9]): not blank, not a comment
+UNPARSABLE = ["?", ":x", "-5 Mark", "(", "ÜMark: a", "= 3", "!", "٣", ".5 Mark", "- note", "\u00b5 = 1", "*", "[x]"]
 
 
 def rand_ws_line(rng: random.Random, around: int) -> str:
